@@ -46,7 +46,8 @@ REQUIRED_COUNTERS = ['configurations_checked', 'processes_recorded',
                      'input_name_scheme_mixed-leading',
                      'configurations_with_delete_existing',
                      'result_files_looked_for_after_all_nodes',
-                     'reruns_on_top_of_existing_result_files']
+                     'reruns_on_top_of_existing_result_files',
+                     'campaigns_after_inputs_were_added']
 EXHAUSTIVE = True
 EXHAUSTIVE_SCOPE = 'coverage.box'
 
@@ -267,6 +268,16 @@ def run_block(task, out):
                     out.count('reruns_on_top_of_existing_result_files')
                     check_config(out, cli, fake, d, n_inputs, N, C,
                                  ts[-1] + tmin + 3, delete_existing=False)
+        # a second campaign on the same data directory after more input
+        # files were added (another generate-input call)
+        N, C = task['nodes'][-1], max(task['cores'])
+        if N * C >= n_inputs + 2:
+            for extra in ('zz_added_later.json', '0_added_later.json'):
+                with open(os.path.join(d, 'inputs', extra), 'w') as f:
+                    json.dump(input_content(7), f)
+            out.count('campaigns_after_inputs_were_added')
+            check_config(out, cli, fake, d, n_inputs + 2, N, C,
+                         tasks_per_input_max(N * C, n_inputs + 2) + 5)
     finally:
         cli.multiprocessing = real_mp
         shutil.rmtree(d, ignore_errors=True)
